@@ -639,6 +639,9 @@ func condBattery(cd stackage.Condition) (where, msg, site string) {
 func c08RunElem(c *core.Ctx, n int) {
 	aw := AwkwardValues[n/4]
 	role := []string{"pushed", "inserted+replaced", "condition-expression", "comparand-pair"}[n%4]
+	if n%4 == 0 && (n/4)%2 == 1 {
+		role = "only-child-of-an-envelope"
+	}
 	desc := map[string]any{"value": aw.Name, "role": role}
 	var s stackage.Stack
 	pan, msg, site := Guard(func() {
@@ -651,6 +654,10 @@ func c08RunElem(c *core.Ctx, n int) {
 			_ = warm.String()
 			warm.IsNesting()
 			s = stackage.Or().Push("a", aw.New(), "b")
+		case "only-child-of-an-envelope":
+			s = stackage.And().Push(stackage.Or().Push(aw.New()), "sibling", stackage.And().Push(stackage.List().Push(aw.New())))
+			s.Reveal()
+			s.Defrag()
 		case "inserted+replaced":
 			s = stackage.List().Push("a", "b", "c")
 			s.Insert(aw.New(), 1)
